@@ -109,9 +109,12 @@ def rule_who(R):
     # note_outbound_activity: next_ping = keepalive_send_interval().map(|i| now + i)
     v = [x for x in field_stores(f, "next_ping") if x[0].name == noa.name]
     # None when pings are off, otherwise Some(now + interval): the stored value's alternatives, whatever the spelling
-    ok = len(v) == 1
+    # (one store of a computed Option, or one store per case)
+    ok = len(v) >= 1
     if ok:
-        alts = phi_alts(peel(v[0][2]))
+        alts = []
+        for x in v:
+            alts += phi_alts(peel(x[2]))
         some = [a for a in alts if a[0] == "agg" and a[2] == "core::option::Option" and a[3] == "Some"]
         none = [a for a in alts if a[0] == "agg" and a[2] == "core::option::Option" and a[3] == "None"]
 
@@ -385,6 +388,19 @@ def _deadline_value(v, have):
             return "min"
         n = chain(inner)[1]
         return n[0] if n else "?"
+    if is_call(v, "core::iter::Iterator::min") and v[3]:
+        # `[a, b].into_iter().flatten().min()`: the minimum over the deadlines that are present
+        src = v[3][0]
+        arr = [x for x in walk(src) if x[0] == "agg" and x[1] == "array"]
+        if any(is_call(x, "core::iter::Iterator::flatten") for x in walk(src)) and len(arr) == 1:
+            names = []
+            for o in arr[0][5]:
+                n_ = [n for n in chain(peel(o))[1] if n in have]
+                names += n_
+            if sorted(names) == sorted(have):
+                present = [n for n in names if have[n] == "Some"]
+                return "min" if len(present) == 2 else (present[0] if present else "none")
+        return "?"
     if is_call(v, "Option::<T>::or") and len(v[3]) == 2:
         # a.or(b): a if present, else b
         fa = [n for n in chain(peel(v[3][0]))[1] if n in have]
